@@ -279,7 +279,7 @@ def k3_contracts():
         returns=LI.SI, reveal=("io",),
         use={"las_items.SectionItems.append": "shape"},
         loop_fields=K3_LOOP_FIELDS,
-        properties=("C05", "C09", "C19")))]
+        properties=("C05", "C09", "C19", "C04")))]
 
 
 K3 = k3_contracts()
